@@ -95,7 +95,7 @@ def gen_case(rng):
       ops.append({'op': 'bind', 'scope': '/'.join(rng.choice(scopes)), 'sel': c['_selector'], 'arg': rng.choice(cls),
                   'val': val, '_form': 'text', 'block': False})
     elif r < 0.72:  # constant definition (valid / invalid / duplicate / suffix collision)
-      name = rng.choice(CONSTS + ['1bad', 'a b', ''])
+      name = rng.choice(CONSTS + ['1bad', 'a b', '', 'X\n', 'd.X\n'])
       valid = bool(refmodel.MODULE.match(name))
       val = {'o': 300 + rng.randint(0, 9)} if rng.random() < 0.6 else G.gen_value(rng, 1)
       ops.append({'op': 'constant', 'name': name, 'nameValid': valid, 'val': val})
